@@ -16,5 +16,6 @@ for cfg in ("default", "explanations", "checks", "checks_explanations"):
     out["loops:" + cfg] = C.loop_must_call_table(crate)
     out["co:" + cfg] = C.co_exec_table(crate)
     out["ghost:" + cfg] = C.ghost_table(crate)
+    out["ret:" + cfg] = C.return_table(crate)
 json.dump(out, open("/verif/mustcall.json", "w"), indent=0, sort_keys=True)
 print({k: len(v) for k, v in out.items()})
